@@ -291,6 +291,28 @@ def bounded(ctx, b):
         b.guard(("sami-order", order), so, sample={"order_of_first_appearance": order})
 
 
+def bounded_repeated_divs(ctx, b):
+    """DFXP documents in which a language has several divs, with a div of another language between them, or a div
+    that inherits the document language after one that declares it: languages in order of FIRST appearance, every
+    language with all of its cues in document order, none shared"""
+    tt = '<tt xmlns="http://www.w3.org/ns/ttml" xml:lang="%s"><body>%s</body></tt>'
+    def div(lang, texts, t0):
+        attr = f' xml:lang="{lang}"' if lang else ""
+        return f"<div{attr}>" + "".join(f'<p begin="{t0 + k}s" end="{t0 + k}.5s">{x}</p>' for k, x in enumerate(texts)) + "</div>"
+    cases = {"en fr en": ("en", [("en", ["en 1", "en 2"]), ("fr", ["fr 1"]), ("en", ["en 3"])], {"en": ["en 1", "en 2", "en 3"], "fr": ["fr 1"]}),
+             "en fr en fr": ("en", [("en", ["en 1"]), ("fr", ["fr 1"]), ("en", ["en 2"]), ("fr", ["fr 2"])], {"en": ["en 1", "en 2"], "fr": ["fr 1", "fr 2"]}),
+             "declared then inherited": ("de", [("de", ["de 1"]), ("es", ["es 1"]), ("it", ["it 1"]), (None, ["de 2"])], {"de": ["de 1", "de 2"], "es": ["es 1"], "it": ["it 1"]}),
+             "inherited then declared": ("de", [(None, ["de 1"]), ("es", ["es 1"]), ("de", ["de 2"])], {"de": ["de 1", "de 2"], "es": ["es 1"]}),
+             "three in a row": ("en", [("fr", ["fr 1"]), ("en", ["en 1"]), ("en", ["en 2"]), ("en", ["en 3"])], {"fr": ["fr 1"], "en": ["en 1", "en 2", "en 3"]})}
+    for name, (doc_lang, divs, want) in cases.items():
+        def one(doc_lang=doc_lang, divs=divs, want=want):
+            doc = tt % (doc_lang, "".join(div(l, tx, 10 * i + 1) for i, (l, tx) in enumerate(divs)))
+            cs = SHARED_READERS.setdefault("dfxp", DFXPReader()).read(doc)
+            got = {l: [c_.get_text() for c_ in cs.get_captions(l)] for l in cs.get_languages()}
+            return got == want and list(got) == list(want), {"read": got, "languages": cs.get_languages(), "expected": want, "expected_order": list(want)}
+        b.guard(("repeated_divs", name), one, sample={"divs": name})
+
+
 def bounded_inline_lang(ctx, b):
     """SAMI paragraphs that name their language themselves (lang= on the P element, no class)"""
     for codes in (("en", "fr"), ("fr", "en"), ("en-US", "fr-FR"), ("en-US", "en-GB"), ("en", "en-GB")):
@@ -327,6 +349,9 @@ def run(ctx):
     P("webvtt.WebVTTWriter.write/language", webvtt_write_language, functions=[WebVTTWriter.write], crosscheck=False)
     import props.C19 as C19
     P("base.merge_concurrent_captions", C19.mcc, functions=[C19.merge_concurrent_captions], setup_interp=C19.setup, crosscheck=False)
+    ctx.bounded("repeated_divs", "DFXP documents in which a language has several divs (another language between them, a div that "
+                "inherits the document language): languages in order of first appearance, each with all its cues in order",
+                lambda b: bounded_repeated_divs(ctx, b))
     ctx.bounded("inline_lang", "SAMI documents whose paragraphs carry lang= themselves, for five pairs of codes (two of them sharing "
                 "their primary subtag): one cue list per language, none shared", lambda b: bounded_inline_lang(ctx, b))
     ctx.bounded("multi_language", "caption sets with 1-4 languages, cues sorted and non-overlapping within a language, with "
